@@ -1,0 +1,31 @@
+//! Verification hooks (feature `verif`): re-exports of items that are already `pub`
+//! but live in crate-private modules, so that an external checking harness can drive
+//! them. No behaviour is added.
+
+pub use crate::{
+    breaking::fol::sigma_0::ht::{
+        break_equivalences_annotated_formula, break_equivalences_formula,
+        break_equivalences_theory,
+    },
+    command_line::{
+        arguments::{Decomposition, FormulaRepresentation},
+        files::Files,
+    },
+    simplifying::fol::sigma_0::{classic::CLASSIC, ht::HT, intuitionistic::INTUITIONISTIC},
+    verifying::{
+        outline::{GeneralLemma, ProofOutline, ProofOutlineError, ProofOutlineWarning},
+        problem::{AnnotatedFormula, Interpretation, Problem, Role},
+        prover::{
+            Failure, Prover, Report, Status, StatusExtractionError, Success,
+            vampire::{Vampire, VampireError, VampireOutput, VampireReport},
+        },
+        task::{
+            Task,
+            external_equivalence::{
+                ExternalEquivalenceTask, ExternalEquivalenceTaskError,
+                ExternalEquivalenceTaskWarning,
+            },
+            strong_equivalence::{StrongEquivalenceTask, StrongEquivalenceTaskError},
+        },
+    },
+};
